@@ -759,11 +759,19 @@ class Interpreter(Interp):
             if m:
                 return lambda interp, *a, **k: m(interp, obj, *a, **k)
             raise OutOfReach(f"str method {attr} on name part")
+        if isinstance(obj, PyTypeTok) and attr == "__name__":
+            return obj.name
         if isinstance(obj, ExcVal):
             if attr == "args":
                 return obj.args
             if attr == "__cause__":
                 return obj.cause
+            extra = getattr(obj, "attrs", None)
+            if extra is not None and attr in extra:
+                return extra[attr]
+            if attr in ("lineno", "offset", "text", "filename", "msg"):
+                # SyntaxError details: present only when the raiser supplied them
+                raise exc("AttributeError", attr)
             raise OutOfReach(f"exception attribute {attr}")
         if isinstance(obj, (dict, list, set, str, tuple, SymPySet)):
             key = ("SymPySet" if isinstance(obj, SymPySet) else type(obj).__name__, attr)
@@ -786,6 +794,10 @@ class Interpreter(Interp):
             if attr in obj.attrs:
                 return obj.attrs[attr]
             raise OutOfReach(f"module attribute {obj.name}.{attr} is not modelled")
+        if isinstance(obj, (bytes, bytearray)):
+            hook = self.method_tables.get(("bytes", attr))
+            if hook is not None:
+                return lambda interp, *a, **k: hook(interp, obj, *a, **k)
         if callable(obj) and not isinstance(obj, (SV, Rec)):
             raise exc("AttributeError", f"host callable has no attribute '{attr}'")
         raise OutOfReach(f"getattr {attr} on {type(obj).__name__}")
@@ -1244,6 +1256,14 @@ def _dict_update(interp, d, other=None, **kw):
         d[k] = v
 
 
+def _list_index(interp, l, x):
+    for j, y in enumerate(l):
+        r = interp.eq(y, x)
+        if r is True or (r is not False and interp.branch_truth(interp.wrapb(r), "list.index")):
+            return j
+    raise exc("ValueError", "x not in list")
+
+
 def _list_append(interp, l, x):
     l.append(x)
 
@@ -1266,6 +1286,7 @@ _CONCRETE_METHODS = {
     ("list", "remove"): lambda i, l, x: l.remove(x),
     ("list", "clear"): lambda i, l: l.clear(),
     ("list", "reverse"): lambda i, l: l.reverse(),
+    ("list", "index"): lambda i, l, x: _list_index(i, l, x),
     ("SymPySet", "add"): lambda i, s, x: i.pyset_add(s, x),
     ("SymPySet", "copy"): lambda i, s: SymPySet(s),
     ("SymPySet", "issubset"): lambda i, s, o: all(i.branch_truth(i.wrapb(i.contains(o, x)), "issubset") for x in s),
@@ -1329,8 +1350,10 @@ def _b_len(interp, v):
         interp.eng.assume(n >= 0)
         interp.eng.assume((n == 0) == v.is_empty())
         return SV(n)
-    if isinstance(v, SV) and v.t.sort() == z3.StringSort():
+    if isinstance(v, SV) and z3.is_seq(v.t):
         return SV(z3.Length(v.t))
+    if hasattr(v, "sym_len"):
+        return v.sym_len(interp)
     raise OutOfReach(f"len of {type(v).__name__}")
 
 
@@ -1345,6 +1368,8 @@ def _b_type(interp, v):
 def _b_str(interp, v=""):
     if isinstance(v, (str, DName, PartV)):
         return v
+    if isinstance(v, ExcVal) and all(isinstance(a, str) for a in v.args):
+        return v.args[0] if len(v.args) == 1 else ("" if not v.args else str(v.args))
     if isinstance(v, Rec) and "__str__" in v._fields:
         return interp.call(v._fields["__str__"], [], {})
     if isinstance(v, SV) and v.t.sort() == z3.StringSort():
